@@ -62,7 +62,7 @@ CHECKS = {
     "C12": {
         "ready": True, "engine": "E1",
         "technique": "bounded-exhaustive enumeration of ordered pairs of small labelled graphs through both MCS matchers and every mode, vs. brute-force enumeration of all common induced subgraph mappings",
-        "text": "Class representatives (<=3 atoms; thorough 4) x all labelled graphs (<=3 atoms) over 2 elements x 2 bond orders, in both argument orders, with disjoint node ids: every returned mapping must be injective, label-preserving and induced both ways; in maximum mode all mappings have the brute-force maximum size and (without pruning) the result set equals the oracle's; the three direction accessors must be consistent and mutually inverse; a wildcard family exercises prune_wc (where pruning can flip which graph is smaller).",
+        "text": "Class representatives (<=3 atoms; thorough 4) x all labelled graphs (<=3 atoms) over 2 elements x 2 bond orders, in both argument orders, with disjoint node ids, under four label renderings (one selected node label; two selected labels with atoms equal in the first and different in the second; bond orders as numbers, as (before, after) tuples, as names): every returned mapping must be injective, label-preserving and induced both ways; in maximum mode all mappings have the brute-force maximum size and (without pruning) the result set equals the oracle's; the three direction accessors must be consistent and mutually inverse; a wildcard family exercises prune_wc (where pruning can flip which graph is smaller).",
         "note": "Small-scope (<=4 atoms). With prune_automorphisms only validity, maximality and non-emptiness are required.",
     },
     "C13": {
@@ -98,31 +98,31 @@ CHECKS = {
     "C03": {
         "ready": True, "engine": "E1",
         "technique": "exhaustive enumeration over the finite (template, substrate) product drawn from the corpora x direction x strategy; every output judged by RDKit (substrate, balance) and by an independent changed-bond-graph isomorphism",
-        "text": "Every usable corpus reaction (118) is applied with its own centre and full-ITS template, forwards and backwards, strategies all/comp/bt, and every centre template to substrates of other reactions (quick 4, thorough 25 each): each emitted reaction must have the substrate unchanged on the correct side, conserve all elements incl. hydrogen and charge (for rules that are themselves conserving), and each emitted ITS graph must change exactly the template's bonds: its changed-bond graph (order change per bond, element and hydrogen change per end atom) is isomorphic to the one the harness computes from the template's source reaction with RDKit.",
+        "text": "Every usable reaction (184 corpus reactions + 28 hand-written explicit-hydrogen ones: charged look-alike atoms, duplicated molecules, aromatic ring formation, unsymmetrical cycloaddition) is applied with its own template in every form between centre and full ITS (centre, radius 1/2, centre + first shell + one second-shell atom, full ITS, the reaction string), forwards and backwards, strategies all/comp/bt; the string form is also chained: forwards on two copies of the reactants, then backwards on each product mixture (and backwards first under another numbering); every centre template is applied to substrates of other reactions (quick 2, thorough 20 each) and 4 wildcard rules to 12 substrates: each emitted reaction must have the substrate unchanged on the correct side, conserve all elements incl. hydrogen and charge (for rules that are themselves conserving), and each emitted ITS graph must change exactly the template's bonds: its changed-bond graph (order change per bond, element, hydrogen and charge change per end atom, plus atoms that change charge off the changed bonds) is isomorphic to the one the harness computes from the template's source reaction with RDKit.",
         "note": "Finite given set (corpora). Explicit-H corpus uses the default H mode, implicit-H corpus implicit_temp. Pairs with no output are counted, not judged (that is C04's business).",
     },
     "C04": {
         "ready": True, "engine": "E1",
         "technique": "exhaustive enumeration of every precondition-passing corpus reaction x template kind x direction x strategy x renumbering / rewriting variants; RDKit-only standardised reaction must be among the outputs",
-        "text": "For each of the 118 corpus reactions that satisfy the well-formedness precondition (decided from the input with RDKit), the centre and full-ITS template extracted from the reaction - and from each renumbered / re-rooted / fragment-reordered variant of it - is applied to the unmapped reactants (forwards) and products (backwards); the RDKit-canonical reaction must be among the canonicalised outputs.",
-        "note": "Known finding D8 (multi-component centre patterns lose the reaction under some numberings / atom orders) is matched as an input class. Strategy comp is exempt when the substrate has spectator fragments (documented component-count rule).",
+        "text": "For each usable reaction (corpus reactions that satisfy the well-formedness precondition, decided from the input with RDKit, plus 28 hand-written ones incl. duplicated molecules and aromatic ring formation), the centre and full-ITS template extracted from the reaction (as graph and as reaction string; full template also with the component-aware strategy) - and from each renumbered / re-rooted / fragment-reordered variant of it - is applied to the unmapped reactants (forwards) and products (backwards); the RDKit-canonical reaction must be among the canonicalised outputs.",
+        "note": "Known findings D8 (multi-component centre patterns lose the reaction under some numberings / atom orders) and D20 are listed by reaction id, template kind and direction. Strategy comp is exempt when the substrate has spectator fragments (documented component-count rule).",
     },
     "C05": {
         "ready": True, "engine": "E1+E3(order)",
         "technique": "metamorphic exhaustive enumeration: every corpus pair x template renumberings x substrate rewritings x repeated calls x strategies; result sets compared",
-        "text": "For every usable corpus reaction with its own centre template, forwards and backwards: the set of distinct (RDKit-canonical) reactions is computed under 8 (thorough: all) template renumberings, every substrate re-rooting and fragment order tried, repeated calls on the same and on a fresh reactor, and the three strategies; all sets must coincide, comp must be a subset of all, bt must equal comp when non-empty and all otherwise.",
-        "note": "Known finding D8 matched as an input class (multi-component patterns).",
+        "text": "For every usable corpus reaction with its own centre template, forwards and backwards: the set of distinct (RDKit-canonical) reactions is computed under 8 (thorough: all) template renumberings, every substrate re-rooting and fragment order tried, the substrate handed over as a graph under other node numberings, repeated calls on the same and on a fresh reactor, and the three strategies; all sets must coincide, comp must be a subset of all, bt must equal comp when non-empty and all otherwise; the same invariance is required with automorphism=True; the template handed over as reaction string, ITS graph and SynRule object (centre and full, both directions) must give the same set.",
+        "note": "Known finding D8 is listed by reaction id and direction (which of the renumbering / rewriting tags fires depends on the seed-dependent base numbering, so the tags are one finding per input).",
     },
     "C11": {
         "ready": True, "engine": "E1",
         "technique": "bounded-exhaustive enumeration of small labelled graphs (connected, disconnected, symmetric) vs. brute-force automorphisms; match lists through the de-duplicator; rule applications with pruning on vs. every raw match glued",
         "text": "(a) Automorphism counts and orbits of every connected class representative with <=4 atoms (thorough 5), every disconnected pair with <=5 (6) atoms incl. isomorphic components, and symmetric families equal brute-force enumeration per component; the WL estimate never splits a true orbit. (b) deduplicate_matches_with_anchor returns an order-preserving non-empty sub-list for every (host, pattern) pair with >=2 matches under exact, estimated, host and combined orbits. (c) For every corpus pair and for the synthetic two-component family X-Y + C=C (all X,Y, all numberings and component orders of the rule, six substrates), the set of distinct reactions with pruning equals the set obtained by gluing every raw match (pruning switched off by rebinding the module-level name).",
-        "note": "Known finding D8 (clause c) matched as an input class: patterns with >=2 components.",
+        "note": "Known finding D8 (clause c): corpus cases listed by reaction id, template kind, direction and flag; the synthetic family as a fully enumerated class with its expected failing count.",
     },
     "C14": {
         "ready": True, "engine": "E2+E3",
         "technique": "deviation-bounded stateless exploration of environment answers on the real batching code: id() reuse of dead objects, every cut of a task list into pickled batches; exhaustive batches over colliding substrates; real pools for conformance",
-        "text": "Every batch of <=3 (thorough 4) entries over four colliding substrates (two reactive, one repeated, one look-alike) x cache off / size 1 / 2 / 32768 x direction, followed by a second fit() with other rule objects, is run on the real BatchReactor under an id() seam that may hand a new object the id of any collected one (<=2 reuses): each entry's output must equal what the entry gives alone. Every cut of 4 (5) entries or 3 rules into pickled batches (joblib semantics) must give the same results; the validators and the balance check are run under every cut of their rows against per-row calls; batched clustering equals one-shot clustering (C13 pools); real loky pools and a real ProcessPoolExecutor (SynCRN parallel build) must reproduce the serial results.",
+        "text": "Every batch of <=3 (thorough 4) entries over four colliding substrates (two reactive, one of them again in another spelling, one look-alike; exact repeats arise from sequences) x cache off / size 1 / 2 / 32768 x direction, followed by a second fit() with other rule objects, is run on the real BatchReactor under an id() seam that may hand a new object the id of any collected one (<=2 reuses): each entry's output must equal what the entry gives alone. Every cut of 4 (5) entries or 3 rules into pickled batches (joblib semantics) must give the same results; the validators and the balance check are run under every cut of their rows against per-row calls; batched clustering equals one-shot clustering (C13 pools); SynCRN.build(parallel=True, max_workers 1/2/3/default) with the pool replaced by an in-process ordered stand-in must equal the serial build for every seed subset (>=4 of 6 seeds; thorough >=2) x rule lists x repeats 2/3 x frontier on/off (rounds with up to 60 tasks); real loky pools and a real ProcessPoolExecutor must reproduce the serial results.",
         "note": "In W1/W2 the rule engine is replaced by a pure function of the content of (substrate, rule, direction) so that a wrongly served answer is visible and executions are cheap; W1r and W6 use the real engine. OS scheduling, crashes and time-outs are not explored.",
     },
 }
